@@ -15,7 +15,11 @@
 (*   enabled  the verifier's enabled algorithms of that kind (preferred_keys /       *)
 (*          preferred_pubkeys after disabled_algorithms)                            *)
 (*                                                                                 *)
-(* The verifier walks   CheckDeclared -> LoadKey -> VerifySig.                      *)
+(* The verifier walks   [Probe ->] CheckDeclared -> LoadKey -> VerifySig.           *)
+(* Server side a request may be preceded by an unsigned PROBE for the same key       *)
+(* naming algorithm `probe` (answered PK_OK, or the session is ended when `probe`    *)
+(* is not enabled); the probe must not influence the decision on the signed          *)
+(* request that follows.                                                             *)
 (* Fix = FALSE is the pinned code: RSAKey.verify_ssh_sig takes the hash from the    *)
 (* blob, ECDSAKey loads a key of any curve and compares the blob with the KEY's     *)
 (* curve; nothing compares the blob with `decl` or with the enabled set.            *)
@@ -26,7 +30,8 @@ CONSTANTS Fix,        \* FALSE = pinned code, TRUE = repaired
           Sides,      \* subset of {"client", "server"}
           Families,   \* subset of {"rsa", "ecdsa", "ed25519"}
           EnabledChoice,   \* "all" = every subset of the family's names, "few" = full set and full minus one name
-          Mut         \* "none" | "no_enabled_check" (sensitivity)
+          ProbeChoice,     \* "none" = signed requests only, "all" = also every probe-then-sign sequence (server)
+          Mut         \* "none" | "no_enabled_check" | "probe_caches_key" (sensitivity)
 
 RSA   == {"ssh-rsa", "rsa-sha2-256", "rsa-sha2-512"}
 ECDSA == {"ecdsa-sha2-nistp256", "ecdsa-sha2-nistp384", "ecdsa-sha2-nistp521"}
@@ -41,29 +46,43 @@ EnabledSets(f) == IF EnabledChoice = "all" THEN SUBSET Names(f)
                   ELSE {Names(f)} \cup {Names(f) \ {x} : x \in Names(f)}
 
 VARIABLES side, fam, decl, cert, sign, blob, enabled,    \* the case (constant along a behaviour)
-          phase     \* "start" | "declared_ok" | "key_loaded" | "accepted" | "rejected"
-vars == <<side, fam, decl, cert, sign, blob, enabled, phase>>
+          probe,    \* "none", or the algorithm named by the unsigned probe sent first (server side)
+          phase     \* "start" | "probed" | "declared_ok" | "key_loaded" | "accepted" | "rejected"
+vars == <<side, fam, decl, cert, sign, blob, enabled, probe, phase>>
 
 Init == /\ side \in Sides /\ fam \in Families
         /\ decl \in Names(fam) /\ cert \in CertForms(fam)
         /\ sign \in Names(fam)
         /\ blob \in Names(fam) \cup {Foreign(fam)}
         /\ enabled \in EnabledSets(fam)
+        /\ probe \in {"none"} \cup (IF side = "server" /\ ProbeChoice = "all" THEN Names(fam) ELSE {})
         /\ phase = "start"
+
+(* unsigned request: _generate_key_from_request + check_auth_publickey, then PK_OK; an algorithm that is not   *)
+(* enabled ends the session (_disconnect_no_more_auth)                                                       *)
+SessionAlive(pr, en) == pr = "none" \/ pr \in en
+Probe ==
+    /\ phase = "start" /\ probe # "none"
+    /\ phase' = IF SessionAlive(probe, enabled) THEN "probed" ELSE "rejected"
+    /\ UNCHANGED <<side, fam, decl, cert, sign, blob, enabled, probe>>
 
 (* client: the algorithm is negotiated from the client's own enabled list (C05);                       *)
 (* server: _generate_key_from_request refuses an algorithm that is not in preferred_pubkeys            *)
+\* seeded error "probe_caches_key": the key object built for an answered probe is reused, skipping this check
 CheckDeclared ==
-    /\ phase = "start"
-    /\ phase' = IF decl \in enabled \/ Mut = "no_enabled_check" THEN "declared_ok" ELSE "rejected"
-    /\ UNCHANGED <<side, fam, decl, cert, sign, blob, enabled>>
+    /\ (phase = "start" /\ probe = "none") \/ phase = "probed"
+    /\ phase' = IF \/ decl \in enabled
+                   \/ Mut = "no_enabled_check"
+                   \/ (Mut = "probe_caches_key" /\ phase = "probed")
+                THEN "declared_ok" ELSE "rejected"
+    /\ UNCHANGED <<side, fam, decl, cert, sign, blob, enabled, probe>>
 
 (* _key_info[decl](Message(blob)): the key class of decl's family parses the presented key; the ECDSA   *)
 (* class accepts every curve, whatever curve decl names                                                *)
 LoadKey ==
     /\ phase = "declared_ok"
     /\ phase' = IF Family(sign) = Family(decl) THEN "key_loaded" ELSE "rejected"
-    /\ UNCHANGED <<side, fam, decl, cert, sign, blob, enabled>>
+    /\ UNCHANGED <<side, fam, decl, cert, sign, blob, enabled, probe>>
 
 (* key.verify_ssh_sig(data, sig): RSA picks the hash named by the blob, ECDSA / Ed25519 compare the blob  *)
 (* with the key's own name; a genuine signature made with `sign` verifies exactly when that is `sign`    *)
@@ -71,9 +90,9 @@ KeyAccepts == blob = sign
 VerifySig ==
     /\ phase = "key_loaded"
     /\ phase' = IF (Fix => blob = decl) /\ KeyAccepts THEN "accepted" ELSE "rejected"
-    /\ UNCHANGED <<side, fam, decl, cert, sign, blob, enabled>>
+    /\ UNCHANGED <<side, fam, decl, cert, sign, blob, enabled, probe>>
 
-Next == CheckDeclared \/ LoadKey \/ VerifySig
+Next == Probe \/ CheckDeclared \/ LoadKey \/ VerifySig
 Spec == Init /\ [][Next]_vars
 
 (* ---- the property, as predicates shared with SigAlg_Trace -------------------- *)
@@ -90,8 +109,8 @@ UsesDeclared == UsesDeclaredP(phase = "accepted", decl, sign, blob)
 OnlyEnabled  == OnlyEnabledP(phase = "accepted", sign, blob, enabled)
 Exact        == phase = "accepted" => MayAccept(decl, sign, blob, enabled)
 \* the repaired verifier still accepts every proper signature
-Complete     == phase = "rejected" => ~MayAccept(decl, sign, blob, enabled)
+Complete     == phase = "rejected" => ~MayAccept(decl, sign, blob, enabled) \/ ~SessionAlive(probe, enabled)
 
 Final == phase \in {"accepted", "rejected"}
-Emit  == Final => PrintT(<<"CASE", side, fam, decl, cert, sign, blob, enabled, phase>>)
+Emit  == Final => PrintT(<<"CASE", side, fam, decl, cert, sign, blob, enabled, phase, probe>>)
 =============================================================================
